@@ -199,7 +199,7 @@ func explore05(r *kit.Run, n, t, view int) (states, transitions int, phases map[
 					}
 					if in.Phase == 4 {
 						k := "A"
-						if in.Variant == "keyB" {
+						if in.Variant == "keyB" || in.Variant == "keyB-polyA" {
 							k = "B"
 						}
 						found := false
